@@ -503,12 +503,12 @@ fn fname_detect(f: Option<F>) -> &'static str {
 pub fn run(ctx: &Ctx) -> CheckOutput {
 	let thorough = ctx.thorough();
 	// Part A
-	let (nmax, max_ops) = if thorough { (7, 3) } else { (4, 3) };
+	let (nmax, max_ops) = if thorough { (6, 3) } else { (4, 3) };
 	let mut cfgs = vec![];
 	for n in 0..=nmax {
 		for pat in 0..PATTERNS.len() {
 			// 3-op programs only for the smaller data sizes (cost grows as (2n+4)^3 per state)
-			let ops = if n > (if thorough { 5 } else { 2 }) { max_ops.min(2) } else { max_ops };
+			let ops = if n > (if thorough { 4 } else { 2 }) { max_ops.min(2) } else { max_ops };
 			cfgs.push((n, pat, ops));
 		}
 	}
